@@ -57,6 +57,7 @@ def mandatory(tier):
             out.append(f"points/{a}->{b}/{g}")
             out.append(f"vectors/{a}->{b}/{g}")
     out += ["lattice/True", "lattice/False", "identity_resample", "anchors", "coords_options", "cube"]
+    out += [f"image_sample_sublattice/{a}->{b}" for a in (True, False) for b in (True, False)]
     return out
 
 
@@ -381,6 +382,22 @@ def case(ctx, i):
                 ctx.bucket("identity_resample")
                 outn = F.grid_sample(img, c, mode="nearest", padding_mode="border", align_corners=ac)
                 ctx.true("identity_resample_nearest", bool((outn == img).all()), align_corners=ac, n_diff=int((outn != img).sum()))
+            # the same through the data classes: an image sampled at a sub-lattice of its own grid, whichever flag either grid carries
+            if min(shape) >= 3 and g1.size() == tuple(int(round(float(k))) for k in g1._size):
+                from deepali.data import Image
+
+                sl = (slice(None),) + (slice(1, -1),) * D
+                for a_, b_ in itertools.product((True, False), (True, False)):
+                    sub = g1.align_corners(a_).crop(num=1).align_corners(b_)
+                    got = Image(img[0], g1.align_corners(a_)).sample(sub)
+                    ctx.true("image_sample_sublattice_grid", got.grid() == sub and got.grid().align_corners() == b_, image_flag=a_, target_flag=b_)
+                    # position error of the sub-lattice's cube coordinates mapped (through world) to indices of the image grid,
+                    # times the steepest slope linear interpolation can have
+                    pos = gen.ref_of_grid(sub).tol(np.ones(D), CORNERS if b_ else CUBE, GRID, gen.ref_of_grid(g1.align_corners(a_)), eps=eps, k=K)
+                    amax = img.abs().max().item()
+                    tol_s = 2 * amax * float(np.sum(pos)) + 4e-5 * (1 + amax) * max(shape) / 8 + 4e-5
+                    ctx.close("image_sample_sublattice", got.tensor(), img[0][sl], tol_s, image_flag=a_, target_flag=b_)
+                    ctx.bucket(f"image_sample_sublattice/{a_}->{b_}")
     # --- Cube: cube <-> world maps of the domain object
     with ctx.guard("Cube"):
         from deepali.core.cube import Cube
